@@ -5,7 +5,7 @@ WT=${HWT:-/tmp/wt/s1}
 HOUT=${HOUT:-/tmp/wt/outh}
 V=${VERIF_DIR:-/verif}
 [ -d $WT ] || git -C /repo worktree add -q --detach $WT HEAD
-for h in $V/seeded/harmless/${HPAT:-*}.diff; do
+for h in ${HDIR:-$V/seeded/harmless}/${HPAT:-*}.diff; do
   git -C $WT checkout -q -- . ; git -C $WT apply "$h" || { echo "$(basename $h): does not apply"; continue; }
   bad=""
   LIST="01 02 03 04 05 06 07 08 09 10 11 12 13 14 15 16 17 18 19"
